@@ -14,7 +14,9 @@ TECHNIQUE = "exception-type + bitwise state-snapshot monitor over an exhaustivel
 RULE = ("case = ordered pair (a, b) of sketch configurations from a per-family grid (base configuration, one variant per "
         "parameter incl. off-by-one and differs-only-above-bit-32 values, all counter-type pairs at equal shape), both "
         "operands made non-empty by a short random history; non-trivial = the two configurations differ in exactly one "
-        "merge-relevant parameter (or only in the counter type), or are equal / differ only in phi (must merge)")
+        "merge-relevant parameter (or only in the counter type), or are equal / differ only in phi (must merge); a fifth of the pairs is "
+        "tested right after a compatible temporary was merged and dropped (6 operands built at the freed address each), a fifth with an "
+        "operand whose bookkeeping totals wrapped to exactly 0 after 64 self-merges; user subclasses on either side")
 ASSUMPTIONS = ["grid values are representative of 'differs in parameter X'; widths <= 64, depths <= 8"]
 LEVEL_TEXT = ("Every ordered pair of a configuration grid per family is executed against the real merge(): mismatching "
               "pairs must raise TypeError with both operands bit-for-bit unchanged, matching pairs must merge. The grid "
